@@ -41,7 +41,9 @@ type c35State struct {
 	writes [3]int
 	idx    int
 	hist   []byte
-	fresh  bool // no write since the node was (re)built
+	fresh  bool                 // no write since the node was (re)built
+	lastTx *crypto.Hash         // transaction of the most recent write on chain A or B
+	onC    map[crypto.Hash]bool // transactions already carried by a snapshot of chain C
 }
 
 func c35Scratch() string {
@@ -71,7 +73,7 @@ func c35GenesisRef() []c35Rec {
 }
 
 func c35New(int) *c35State {
-	s := &c35State{dir: c35Scratch(), fresh: true}
+	s := &c35State{dir: c35Scratch(), fresh: true, onC: map[crypto.Hash]bool{}}
 	m, err := newMCNode(mcNet7, 0, s.dir)
 	if err != nil {
 		panic(fmt.Errorf("c35: node setup: %w", err))
@@ -102,18 +104,34 @@ func (s *c35State) maxPos() uint64 {
 	return m
 }
 
-// c35Prepare builds the next well-formed one-transaction snapshot on chain ci:
-// a custodian-signed deposit, locked and written, on the chain's head round.
+// c35Prepare builds the next well-formed one-transaction snapshot on chain ci on
+// the chain's head round. Chains A and B carry a fresh custodian-signed
+// deposit (locked and written first). Chain C re-finalizes the transaction of
+// the most recent A/B write when it does not carry it yet (the same
+// transaction in a second snapshot on another chain is legitimate), otherwise
+// a fresh deposit as well.
 func c35Prepare(s *c35State, ci int) (*common.Snapshot, []crypto.Hash) {
 	store := s.m.Store
 	nodeId := s.m.Net.NodeIds[1+ci]
-	acct := fixc.Addr("c35-wallet")
-	tx := s.m.Net.DepositXIN(fmt.Sprintf("c35-%d-%d", ci, s.writes[ci]), "1", []*common.Address{&acct}, 1)
-	if err := tx.LockInputs(store, false); err != nil {
-		panic(err)
+	var txh crypto.Hash
+	if ci == 2 && s.lastTx != nil && !s.onC[*s.lastTx] {
+		txh = *s.lastTx
+	} else {
+		acct := fixc.Addr("c35-wallet")
+		tx := s.m.Net.DepositXIN(fmt.Sprintf("c35-%d-%d", ci, s.writes[ci]), "1", []*common.Address{&acct}, 1)
+		if err := tx.LockInputs(store, false); err != nil {
+			panic(err)
+		}
+		if err := store.WriteTransaction(tx); err != nil {
+			panic(err)
+		}
+		txh = tx.PayloadHash()
+		if ci != 2 {
+			s.lastTx = &txh
+		}
 	}
-	if err := store.WriteTransaction(tx); err != nil {
-		panic(err)
+	if ci == 2 {
+		s.onC[txh] = true
 	}
 	head, err := store.ReadRound(nodeId)
 	if err != nil || head == nil {
@@ -121,7 +139,7 @@ func c35Prepare(s *c35State, ci int) (*common.Snapshot, []crypto.Hash) {
 	}
 	snap := &common.Snapshot{Version: common.SnapshotVersionCommonEncoding, NodeId: nodeId, RoundNumber: head.Number, References: head.References,
 		Timestamp: s.m.Net.Epoch + uint64(time.Hour) + uint64(s.idx)*uint64(time.Millisecond)}
-	snap.AddTransaction(tx.PayloadHash())
+	snap.AddTransaction(txh)
 	snap.Hash = snap.PayloadHash()
 	snap.Signature = &crypto.CosiSignature{Mask: 1}
 	return snap, []crypto.Hash{nodeId}
@@ -319,7 +337,7 @@ func c35RefPositions(l []c35Rec) []uint64 {
 func TestMC_C35(t *testing.T) {
 	c := verifmc.Start(t, "C35", "model_checking")
 	defer c.Finish()
-	c.SetRule("BFS over all histories of {TopoWrite of the next prepared one-transaction snapshot on chain A/B/C, close + reopen of the on-disk store with a real SetupNode}; state = sequence of writes with reopen marks (a reopen directly after (re)building the node is the same state); in every state the full menu ReadSnapshotsSinceTopology(off,cnt) for off in {0,1,middle,last,last+1,2^64-1} x cnt in {0,1,2,500,501}, ReadSnapshotWithTransactionsSinceTopology, ReadSnapshot of every written and one unknown hash, and the raw TOPOLOGY/SNAPTOPO dump are compared with a Go slice of (position, payload hash)")
+	c.SetRule("BFS over all histories of {TopoWrite of the next prepared one-transaction snapshot on chain A/B/C (A,B: fresh deposit; C: re-finalization of the latest A/B transaction when not yet on C, else a fresh deposit), close + reopen of the on-disk store with a real SetupNode}; state = sequence of writes with reopen marks (a reopen directly after (re)building the node is the same state); in every state the full menu ReadSnapshotsSinceTopology(off,cnt) for off in {0,1,middle,last,last+1,2^64-1} x cnt in {0,1,2,500,501}, ReadSnapshotWithTransactionsSinceTopology, ReadSnapshot of every written and one unknown hash, and the raw TOPOLOGY/SNAPTOPO dump are compared with a Go slice of (position, payload hash)")
 	c.Assume("snapshots are handed to Node.TopoWrite directly (the finalization path above it is not part of this property)", "the reference prefix is the genesis snapshot list produced by Genesis.BuildSnapshots", "Badger transactions are atomic; close is clean (no crash)")
 
 	// sanity of the fixture before exploring
